@@ -2,11 +2,13 @@
 
 Nothing is executed: Parser.get_program() (before loading) and Loader.get_code()/get_routines()
 (after) are exported verbatim - op-code names, jump conditions and offsets, routine entry
-addresses, the identity of every instruction object - for generated scripts (all profiles, plus
+addresses - for generated scripts (all profiles, plus
 routine definitions placed inside if / repeat bodies and between statements) and for every script
 shipped with the repository.  TLC explores the abstract machine of spec/Image.tla over each image
 exhaustively (every conditional jump both ways, calls up to depth 3) and checks the invariants in
-every reachable state, plus RelocationPreservesTargets once per image.
+every reachable state, plus - once per image - that the loaded code is the documented rearrangement
+of the parsed code (LoadedCodeIsRearrangement) and that every jump leads to the same instruction of
+its segment before and after loading (RelocationPreservesTargets).
 """
 import glob
 import os
